@@ -1049,6 +1049,82 @@ fn raw_corpus() -> Vec<Case> {
     ]
 }
 
+/// `base` wrapped in `bits.len() - 1` lists; `bits[0]` = the outermost list is non-null … `bits[d]` = the base is
+fn strictness_type(base: &str, bits: &[bool]) -> String {
+    let d = bits.len() - 1;
+    let mut t = format!("{base}{}", if bits[d] { "!" } else { "" });
+    for k in (0..d).rev() {
+        t = format!("[{t}]{}", if bits[k] { "!" } else { "" });
+    }
+    t
+}
+
+fn strictness_tag(bits: &[bool]) -> String {
+    bits.iter().map(|b| if *b { '1' } else { '0' }).collect()
+}
+
+/// Systematic family over spec 5.8.5 AreTypesCompatible (no defaults involved): every pair (variable type, location
+/// type) of the same base type and list depth 0..=3 in which the variable is STRICTER than the location at any subset
+/// of depths (valid: unlabelled, an O case of C04) and its mirror images in which the variable is LOOSER at exactly one
+/// depth (invalid: labelled 5.8.5, an O case of C03) — at five kinds of usage site: field argument, field of an input
+/// object literal, directive argument, item of a list literal, argument inside a spread fragment. One schema, one
+/// usage per document, so a failure is a minimal concrete input.
+fn variable_strictness_corpus() -> Vec<Case> {
+    // (base type, deepest list depth enumerated)
+    let bases: [(&str, usize); 5] = [("Int", 3), ("String", 1), ("ID", 1), ("E", 1), ("In", 2)];
+    let patterns = |d: usize| -> Vec<Vec<bool>> { (0..(1u32 << (d + 1))).map(|m| (0..=d).map(|k| m >> k & 1 == 1).collect()).collect() };
+    let mut sdl = String::from("enum E { X Y }\ninput In { k: Int }\n");
+    let mut query = String::from("type Query { z: Int");
+    for (base, maxd) in bases {
+        // one depth more on the location side: the list-item site of depth d sits inside a location of depth d + 1
+        for d in 0..=maxd + 1 {
+            for p in patterns(d) {
+                let (t, tag) = (strictness_type(base, &p), strictness_tag(&p));
+                query.push_str(&format!(" f_{base}_{tag}(x: {t}): Int g_{base}_{tag}(w: W_{base}_{tag}): Int"));
+                sdl.push_str(&format!("input W_{base}_{tag} {{ x: {t} }}\ndirective @d_{base}_{tag}(x: {t}) on FIELD\n"));
+            }
+        }
+    }
+    query.push_str(" }\n");
+    sdl.push_str(&query);
+    let mut out = vec![];
+    for (base, maxd) in bases {
+        for d in 0..=maxd {
+            for loc in patterns(d) {
+                for var in patterns(d) {
+                    let looser: Vec<usize> = (0..=d).filter(|&k| loc[k] && !var[k]).collect();
+                    if looser.len() > 1 {
+                        continue;
+                    }
+                    let stricter = (0..=d).filter(|&k| var[k] && !loc[k]).count();
+                    let (vt, tag) = (strictness_type(base, &var), strictness_tag(&loc));
+                    // the location whose ITEM type is `loc`, both nullabilities of the enclosing list
+                    let mut sites = vec![
+                        ("arg", format!("query Q($v: {vt}) {{ f_{base}_{tag}(x: $v) }}")),
+                        ("input-field", format!("query Q($v: {vt}) {{ g_{base}_{tag}(w: {{x: $v}}) }}")),
+                        ("directive-arg", format!("query Q($v: {vt}) {{ z @d_{base}_{tag}(x: $v) }}")),
+                        ("fragment-arg", format!("query Q($v: {vt}) {{ ...F }} fragment F on Query {{ f_{base}_{tag}(x: $v) }}")),
+                    ];
+                    for outer in [false, true] {
+                        let o = if outer { "1" } else { "0" };
+                        sites.push(("list-item", format!("query Q($v: {vt}) {{ f_{base}_{o}{tag}(x: [$v]) }}")));
+                        sites.push(("list-item-in-input-field", format!("query Q($v: {vt}) {{ g_{base}_{o}{tag}(w: {{x: [$v]}}) }}")));
+                    }
+                    for (site, text) in sites {
+                        let labels = match looser.first() {
+                            None => vec![],
+                            Some(k) => lbl("5.8.5", &format!("{site}/variable-looser-at-depth-{k}-of-{d}"), "variable-looser-than-location"),
+                        };
+                        let feature = if looser.is_empty() { format!("variable-strictness:{site}:depth-{d}:stricter-at-{stricter}-levels") } else { format!("variable-strictness:{site}:depth-{d}:looser") };
+                        out.push(Case { sdl: vec![sdl.clone()], text, labels, origin: format!("corpus:variable-strictness:{site}"), features: vec![feature], raw_schema: false });
+                    }
+                }
+            }
+        }
+    }
+    out
+}
+
 pub fn run(prop: &str) {
     let args = Args::parse();
     quiet_panics();
@@ -1111,6 +1187,14 @@ pub fn run(prop: &str) {
     }
     for ((sdl, _), cases) in by_schema {
         ctx.group(&sdl, cases);
+    }
+    {
+        // 5.8.5 AreTypesCompatible, enumerated (one schema, one group)
+        let t0 = std::time::Instant::now();
+        let fam = variable_strictness_corpus();
+        let (n, sdl) = (fam.len(), fam[0].sdl.clone());
+        ctx.group(&sdl, fam);
+        ctx.rep.notes.push(format!("variable-strictness family: {n} documents in {} ms", t0.elapsed().as_millis()));
     }
     for (sdl, plain, cases) in extension_corpus() {
         // the abstract schema of a hand-written case: its PLAIN spelling through the parser (no extension to resolve)
